@@ -46,35 +46,37 @@ pub fn c14_homomorphic(sk: &SecretKey, a: ElGamalCiphertext, b: ElGamalCiphertex
         lemma_eg_sum(a.c1.dl(), a.c2.dl(), b.c1.dl(), b.c2.dl(), sk.0.val());
     }
     assert(ps == pk_add(pa, pb));
+    // every operator form the library offers computes the SAME component-wise sum
+    let s1 = a.add_ct_ref_ref(&b);
+    let s2 = a.add_ct_val_ref(&b);
+    let s3 = a.add_ct_ref_val(b);
+    let mut s4 = a;
+    s4.add_assign_ct(b);
+    let mut s5 = a;
+    s5.add_assign_ct_ref(&b);
+    assert(s1 == s && s2 == s && s3 == s && s4 == s && s5 == s);
+    // the wrapper-level decryptions agree with the trait-level one
+    let w = s.decrypt(sk);
+    assert(w == ps);
+    let dk = ElGamalDecryptionKey(s.c1 * sk.0);
+    let w2 = dk.decrypt(&s);
+    assert(w2 == ps);
 }
 /// (a2+b2) - (a1+b1)x == (a2 - a1 x) + (b2 - b1 x)
 pub proof fn lemma_eg_sum(a1: int, a2: int, b1: int, b2: int, x: int)
     requires inr(a1), inr(a2), inr(b1), inr(b2), inr(x),
     ensures fsub(fadd(a2, b2), fmul(fadd(a1, b1), x)) == fadd(fsub(a2, fmul(a1, x)), fsub(b2, fmul(b1, x)))
 {
-    broadcast use ring;
     let p = fmul(a1, x);
     let q = fmul(b1, x);
-    assert(fmul(fadd(a1, b1), x) == fmul(x, fadd(a1, b1)));
-    assert(fmul(x, fadd(a1, b1)) == fadd(fmul(x, a1), fmul(x, b1)));
-    assert(fmul(x, a1) == p && fmul(x, b1) == q);
-    // -(p+q) == -p + -q
-    assert(fadd(fadd(p, q), fadd(fneg(p), fneg(q))) == fadd(fadd(p, fneg(p)), fadd(q, fneg(q)))) by {
-        assert(fadd(fadd(p, q), fadd(fneg(p), fneg(q))) == fadd(p, fadd(q, fadd(fneg(p), fneg(q)))));
-        assert(fadd(q, fadd(fneg(p), fneg(q))) == fadd(fadd(q, fneg(p)), fneg(q)));
-        assert(fadd(q, fneg(p)) == fadd(fneg(p), q));
-        assert(fadd(fadd(fneg(p), q), fneg(q)) == fadd(fneg(p), fadd(q, fneg(q))));
-        assert(fadd(p, fadd(fneg(p), fadd(q, fneg(q)))) == fadd(fadd(p, fneg(p)), fadd(q, fneg(q))));
-    }
-    lemma_range_add(p, q); lemma_range_add(fneg(p), fneg(q));
-    lemma_neg_unique(fadd(p, q), fadd(fneg(p), fneg(q)));
-    assert(fadd(fadd(a2, b2), fadd(fneg(p), fneg(q))) == fadd(fadd(a2, fneg(p)), fadd(b2, fneg(q)))) by {
-        assert(fadd(fadd(a2, b2), fadd(fneg(p), fneg(q))) == fadd(a2, fadd(b2, fadd(fneg(p), fneg(q)))));
-        assert(fadd(b2, fadd(fneg(p), fneg(q))) == fadd(fadd(b2, fneg(p)), fneg(q)));
-        assert(fadd(b2, fneg(p)) == fadd(fneg(p), b2));
-        assert(fadd(fadd(fneg(p), b2), fneg(q)) == fadd(fneg(p), fadd(b2, fneg(q))));
-        assert(fadd(a2, fadd(fneg(p), fadd(b2, fneg(q)))) == fadd(fadd(a2, fneg(p)), fadd(b2, fneg(q))));
-    }
+    // (a1 + b1) * x == p + q
+    lemma_mul_comm(fadd(a1, b1), x);
+    lemma_distrib(x, a1, b1);
+    lemma_mul_comm(x, a1); lemma_mul_comm(x, b1);
+    assert(fmul(fadd(a1, b1), x) == fadd(p, q));
+    lemma_range_mul(a1, x); lemma_range_mul(b1, x);
+    lemma_neg_add(p, q);
+    lemma_add_swap4(a2, b2, fneg(p), fneg(q));
 }
 
 /// the proof binds ciphertext, proof scalars, challenge and key: acceptance pins the challenge to
@@ -97,4 +99,29 @@ pub fn c14_verify_and_decrypt_uses_own_key(p: &ElGamalProof, sk: &SecretKey)
     let r = p.verify_and_decrypt(sk);
     assert(r is Ok ==> sk.0.val() != 0);
     assert(r is Ok ==> r->Ok_0 == pk_sub(p.ciphertext.c2, pk_mul(p.ciphertext.c1, sk.0)));
+}
+
+/// a decryption key recombined from decryption shares c1 * v_i of scalar shares that recombine to
+/// the key decrypts exactly as the secret key does
+pub fn c14_key_from_shares_decrypts(ct: &ElGamalCiphertext, sk: &SecretKey, shares: &[ElGamalDecryptionShare], Ghost(f): Ghost<Seq<SkShare>>)
+    requires
+        f.len() == shares@.len(),
+        forall|i: int| 0 <= i < f.len() ==> share_scalar((#[trigger] f[i]).val()) is Some && shares@[i].0.id() == f[i].id()
+            && shares@[i].0.val() == pk_enc(pk_mul(ct.c1, share_scalar(f[i].val())->Some_0)),
+        combined(f) == Some(sk.0),
+{
+    proof {
+        assert(pk_shares_of(f, egshares_raw(shares@), ct.c1));
+        lemma_combine_linear_pk(f, egshares_raw(shares@), ct.c1);
+    }
+    let k = ElGamalDecryptionKey::from_shares(shares);
+    assert(k is Ok);
+    match k {
+        Ok(k) => {
+            let a = k.decrypt(ct);
+            let b = ct.decrypt(sk);
+            assert(a == b);
+        }
+        Err(_) => {}
+    }
 }
